@@ -47,6 +47,19 @@ struct MLib {
     cells: Vec<MCell>,
     listing: Vec<usize>,
 }
+/// Instance locations: ordinary, or (one in sixteen) a coordinate at the very end of the integer range
+fn gen_loc(src: &mut Src) -> P {
+    let mut p = (src.signed(1000), src.signed(1000));
+    if src.prob(1, 16) {
+        let e = *src.pick(&[i64::MIN, i64::MAX, i64::MIN + 1, -(i32::MAX as i64) - 1, i32::MAX as i64 + 1]);
+        if src.bool() {
+            p.0 = e;
+        } else {
+            p.1 = e;
+        }
+    }
+    p
+}
 fn gen_outline(src: &mut Src) -> (Vec<i64>, Vec<i64>) {
     let n = src.usize_in(1, 4);
     let mut x: Vec<i64> = (0..n).map(|_| src.i64_in(0, 50)).collect();
@@ -68,7 +81,7 @@ fn gen_lib(src: &mut Src) -> MLib {
         let targets: Vec<usize> = (0..ci).collect();
         let ni = if has_layout && !targets.is_empty() { src.usize_in(0, 4) } else { 0 };
         let insts = (0..ni)
-            .map(|k| MInst { name: format!("{}{}", src.pick(&["i", "Inst<", "x.y_", "экземпляр_Ωμέγα_中文字符中文字符中文字符中文字符中文字符中文字符_"]), k), target: if src.bool() { ci - 1 } else { targets[src.index(targets.len())] }, loc: (src.signed(1000), src.signed(1000)), rh: src.bool(), rv: src.bool() })
+            .map(|k| MInst { name: format!("{}{}", src.pick(&["i", "Inst<", "x.y_", "экземпляр_Ωμέγα_中文字符中文字符中文字符中文字符中文字符中文字符_"]), k), target: if src.bool() { ci - 1 } else { targets[src.index(targets.len())] }, loc: gen_loc(src), rh: src.bool(), rv: src.bool() })
             .collect();
         let na = if has_layout { src.usize_in(0, 3) } else { 0 };
         let ncut = if has_layout { src.usize_in(0, 3) } else { 0 };
@@ -472,7 +485,7 @@ fn negative_case(src: &mut Src, ctx: &mut Ctx) -> Result<(), String> {
     }
 }
 fn run(run: &mut Run) {
-    run.rule("Placed gridded-layout libraries: 1-5 cells forming a DAG in shuffled listing order, stepped outlines of 1-4 steps (ties allowed), 0-5 metals, instances with all four reflection combinations and arbitrary locations, arbitrary assignments and cuts, abstract views without ports; export, check cell order, import, compare every field. Negative messages: the exported message with one of 22 faults (each mandatory sub-message removed, an outline without steps or with lists of unequal length, undefined/external reference, an instantiated cell removed, cells listed users first, all leaf cells removed - the dangling reference may be in the first cell, relative placement, non-monotone outline, negative track) must be an error, not a crash. Non-trivial = >= 2 cells, a reflected instance, an assignment and a cut; distinct by hash.");
+    run.rule("Placed gridded-layout libraries: 1-5 cells forming a DAG in shuffled listing order, stepped outlines of 1-4 steps (ties allowed), 0-5 metals, instances with all four reflection combinations and arbitrary locations (the ends of the integer range included), arbitrary assignments and cuts, abstract views without ports; export, check cell order, import, compare every field. Negative messages: the exported message with one of 22 faults (each mandatory sub-message removed, an outline without steps or with lists of unequal length, undefined/external reference, an instantiated cell removed, cells listed users first, all leaf cells removed - the dangling reference may be in the first cell, relative placement, non-monotone outline, negative track) must be an error, not a crash. Non-trivial = >= 2 cells, a reflected instance, an assignment and a cut; distinct by hash.");
     run.assume("abstract ports are not generated: their import is todo!() and they are not in the statement's field list");
     run.min_nontrivial = 200;
     run.explore("roundtrip", run.tier.pick(500_000, 5_000_000), 500, &roundtrip_case);
